@@ -593,4 +593,83 @@ example : readTimestamp (fun v => some v.length) [123, 34, 84, 105, 109, 101, 34
 /-- Escaped quotes in an earlier value do not match the key: `{"QH":"a\"T\":\"b","T":"xy"}` → "xy". -/
 example : readJSONValue [123, 34, 81, 72, 34, 58, 34, 97, 92, 34, 84, 92, 34, 58, 92, 34, 98, 34, 44, 34, 84, 34, 58, 34, 120, 121, 34, 125] keyT = [120, 121] := by decide
 
+
+/-! ## Translator tie: `validateQLogLineIdx` as the source states it (regenerated per run)
+
+`extract/cmd/c20` also flattens the nested `if` / `else if` of
+`validateQLogLineIdx` into a first-match decision list
+(`Gen.C20.validateRows`).  The list is interpreted here and proved equal to the
+model's `validateIdx` for every line index, previous probe and file size: which
+of "too early", "not found", "too late" a probe position means is thereby read
+off the current source (seed C20-19 moved an empty file from the first class to
+the third). -/
+
+namespace T
+/-- Operands of the decision list; `last = none` is `lastProbeLineIdx = -1`. -/
+def term (lineIdx : Nat) (last : Option Nat) (fSize : Nat) (s : String) : Option Int :=
+  if s = "lineIdx" then some (lineIdx : Int)
+  else if s = "lastProbeLineIdx" then some (match last with | some l => (l : Int) | none => -1)
+  else if s = "fSize" then some (fSize : Int)
+  else if s = "0" then some 0
+  else none
+
+def evalCond (lineIdx : Nat) (last : Option Nat) (fSize : Nat) (c : String × String × String) : Option Bool :=
+  if c.2.1 = "==" then
+    match term lineIdx last fSize c.1, term lineIdx last fSize c.2.2 with
+    | some a, some b => some (decide (a = b))
+    | _, _ => none
+  else none
+
+def evalConds (lineIdx : Nat) (last : Option Nat) (fSize : Nat) : List (String × String × String) → Option Bool
+  | [] => some true
+  | c :: rest =>
+    match evalCond lineIdx last fSize c, evalConds lineIdx last fSize rest with
+    | some a, some b => some (a && b)
+    | _, _ => none
+
+/-- first row whose conjunction holds -/
+def evalRows (lineIdx : Nat) (last : Option Nat) (fSize : Nat) :
+    List (List (String × String × String) × String) → Option String
+  | [] => none
+  | (cs, r) :: rest =>
+    match evalConds lineIdx last fSize cs with
+    | some true => some r
+    | some false => evalRows lineIdx last fSize rest
+    | none => none
+
+def errName : Option Err → String
+  | none => "nil"
+  | some .tooEarly => "errTSTooEarly"
+  | some .notFound => "errTSNotFound"
+  | some .tooLate => "errTSTooLate"
+  | some _ => "?"
+end T
+
+/-- The decision list of the source decides exactly as the model's `validateIdx`. -/
+theorem C20_T_validate_rows_are_model (lineIdx : Nat) (last : Option Nat) (fSize : Nat) :
+    T.evalRows lineIdx last fSize Gen.C20.validateRows = some (T.errName (validateIdx lineIdx last fSize)) := by
+  unfold validateIdx
+  cases last with
+  | none =>
+    by_cases h2 : lineIdx = fSize
+    · subst h2
+      simp [Gen.C20.validateRows, T.evalRows, T.evalConds, T.evalCond, T.term, T.errName]
+    · have h2' : ¬ ((lineIdx : Int) = (fSize : Int)) := by omega
+      have hm : ¬ ((lineIdx : Int) = -1) := by omega
+      simp [Gen.C20.validateRows, T.evalRows, T.evalConds, T.evalCond, T.term, T.errName, h2, h2', hm]
+  | some l =>
+    by_cases h1 : l = lineIdx
+    · subst h1
+      by_cases h0 : l = 0
+      · subst h0
+        simp [Gen.C20.validateRows, T.evalRows, T.evalConds, T.evalCond, T.term, T.errName]
+      · have h0' : ¬ ((l : Int) = 0) := by omega
+        simp [Gen.C20.validateRows, T.evalRows, T.evalConds, T.evalCond, T.term, T.errName, h0, h0']
+    · by_cases h2 : lineIdx = fSize
+      · subst h2
+        have h1' : ¬ ((lineIdx : Int) = (l : Int)) := by omega
+        simp [Gen.C20.validateRows, T.evalRows, T.evalConds, T.evalCond, T.term, T.errName, h1, h1']
+      · have h1' : ¬ ((lineIdx : Int) = (l : Int)) := by omega
+        have h2' : ¬ ((lineIdx : Int) = (fSize : Int)) := by omega
+        simp [Gen.C20.validateRows, T.evalRows, T.evalConds, T.evalCond, T.term, T.errName, h1, h1', h2, h2']
 end AGH.C20
